@@ -957,6 +957,62 @@ async fn c06_layout(seed: u64, scen: u64, layout: Vec<usize>, exhaustive_subsets
             }
         }
     }
+    // ---- membership growth: a selection made (and cached by the selector actor) for the smaller
+    // cluster must not be used once the issuer knows a node has joined
+    {
+        let mut c = chaos.lock();
+        c.forced.clear();
+        for nd in &cluster.nodes {
+            nd.ctl.fail_all.store(false, Ordering::SeqCst);
+        }
+    }
+    if n >= 1 {
+        let issuer = 0usize;
+        let h = cluster.nodes[issuer].handle();
+        // warm the per-level selection cache for the current membership (no membership update in between)
+        for level in LEVELS {
+            key += 10;
+            let _ = h.put(ks, key, vec![9], level).await;
+        }
+        id += 1;
+        let joiner = start_node(id, scen_addr(6, scen, id), "dc-0", Arc::new(MemStore::default()), Ctl::new(id), repair, true, None).await;
+        install_policy(joiner.addr, &chaos);
+        cluster.nodes.push(joiner);
+        cluster.publish_membership();
+        tokio::time::sleep(Duration::from_millis(1)).await;
+        let mut layout2 = layout.clone();
+        layout2[0] += 1;
+        let n2 = cluster.nodes.len();
+        for level in LEVELS {
+            key += 10;
+            let mut out = CaseOut::default();
+            chaos.lock().seen.clear();
+            let before_log = cluster.nodes[issuer].ctl.log.lock().len();
+            let result = h.put(ks, key, vec![7, 7], level).await;
+            let stamp = cluster.nodes[issuer].ctl.log.lock().iter().skip(before_log).find(|w| w.id == key).map(|w| w.ts);
+            let required = need(level, &layout2, 0);
+            let mut holders = 0;
+            for o in 0..n2 {
+                if o != issuer && holds(&cluster.nodes[o], ks, key, stamp, false).await {
+                    holders += 1;
+                }
+            }
+            out.count("calls", 1);
+            out.count("calls_right_after_a_join", 1);
+            out.nontrivial = Some(hash_of(&(&layout, "join", format!("{level:?}"))));
+            let desc = json!({"layout_before_join": layout, "layout_after_join": layout2, "issuer": issuer, "level": format!("{level:?}"),
+                "result": match &result { Ok(()) => "Ok".to_string(), Err(e) => e.to_string() }, "other_nodes_holding_it": holders, "required_others": required});
+            if result.is_ok() {
+                out.count("calls_ok", 1);
+                if holders < required {
+                    out.violate(format!("C06:ok-but-fewer-replicas-than-promised:after-a-node-joined:{level:?}"), desc);
+                    out.replay = Some(json!({"seed": seed, "scenario": scen, "layout": layout}));
+                }
+            }
+            outs.push(out);
+        }
+    }
+
     // ---- "still replicated later": bounded progress. Lift every fault, wait two batch
     // windows and two repair intervals of virtual time, then every node must hold what failed calls wrote locally.
     {
@@ -1019,7 +1075,7 @@ pub fn c06(args: &Args) {
     let mut report = Report::new(
         args,
         "E2-cluster",
-        "real clusters in virtual time, layouts of 1-3 DCs x 1-3 nodes (thorough: all 39; quick: 9 of them), membership installed through the real watcher: for every issuer position x all 8 consistency levels x put/del/put_many/del_many x failure assignments for the other nodes (every subset for <= 5 others, rotating failure mode per node: remote storage error / request dropped / reply dropped). At the moment the call returns the issuer's and every peer's storage is read: Ok => the issuer holds the mutation (or a newer one) and at least need(L) other nodes do (0 / 1 / 2 / 3 / total/2 / local/2 / per-DC sum / all others); ConsistencyFailure{responses, required} => responses equals the acknowledgements the harness let through (selected AND request delivered AND remote storage succeeded AND reply not dropped; the selection is read off the policy log), responses < required, the local write is in storage, and after lifting the faults, two batch windows and one explicit pairwise anti-entropy round (bounded-progress restatement of 'still replicated later') every node holds it. NotEnoughNodes carries no claim here. Non-trivial: every call; distinct = distinct (layout, issuer, level, kind, failure assignment).",
+        "real clusters in virtual time, layouts of 1-3 DCs x 1-3 nodes (thorough: all 39; quick: 9 of them), membership installed through the real watcher: for every issuer position x all 8 consistency levels x put/del/put_many/del_many x failure assignments for the other nodes (every subset for <= 5 others, rotating failure mode per node: remote storage error / request dropped / reply dropped). At the moment the call returns the issuer's and every peer's storage is read: Ok => the issuer holds the mutation (or a newer one) and at least need(L) other nodes do (0 / 1 / 2 / 3 / total/2 / local/2 / per-DC sum / all others); ConsistencyFailure{responses, required} => responses equals the acknowledgements the harness let through (selected AND request delivered AND remote storage succeeded AND reply not dropped; the selection is read off the policy log), responses < required, the local write is in storage, and after lifting the faults, two batch windows and one explicit pairwise anti-entropy round (bounded-progress restatement of 'still replicated later') every node holds it. A last phase lets a node join right after selections for every level were made (and cached by the selector actor) and writes again at every level: Ok must hold against the grown membership. NotEnoughNodes carries no claim here. Non-trivial: every call; distinct = distinct (layout, issuer, level, kind, failure assignment).",
     );
     let seed = args.seed;
     let all = c06_layouts(3, 3);
